@@ -34,7 +34,7 @@ C09_INV = ["RetainedImmutable", "ByTimestampMeansMostRecent", "DeleteCurrentRepo
 
 def run(ctx: Ctx) -> None:
     quick = ctx.tier == "quick"
-    for mode, L in (("c09", 4 if quick else 6), ("all", 3 if quick else 4)):
+    for mode, L in (("c09", 4 if quick else 6), ("all", 3 if quick else 5)):
         res = hr.check_model(ctx, mode, L, C09_INV + ["WellFormedInv"])
         ctx.add_tlc(res)
         if not res.ok:
@@ -56,9 +56,9 @@ def run(ctx: Ctx) -> None:
                 ["append2", "del_first", "append1", "ds_current", "coll0", "tickbig", "coll0", "colldef"],
                 ["append2", "append2", "del_first", "del_last", "exp_all", "tickbig", "colldef", "append1"]]
     if quick:
-        hr.check_histories(ctx, {"c09"}, "c09", 2, 150, 7, invariants=C09_INV, weights=w, directed=directed, repeat_directed=4)
+        hr.check_histories(ctx, {"c09"}, "c09", 2, 250, 7, invariants=C09_INV, weights=w, directed=directed, repeat_directed=4)
     else:
-        hr.check_histories(ctx, {"c09"}, "c09", 3, 1500, 8, invariants=C09_INV, weights=w, timeout_s=1800,
+        hr.check_histories(ctx, {"c09"}, "c09", 3, 2500, 9, invariants=C09_INV, weights=w, timeout_s=1800,
                            directed=directed, repeat_directed=8)
     ctx.cov["exhaustive"] = True
     ctx.rule("cases = histories exported by MC_HistoryCases mode c09 (all of the exhaustive length + seeded sample of long ones), each replayed "
